@@ -114,9 +114,9 @@ P = {
 # supplementary sanitizer passes appended to the thorough command (DESIGN.md §4b)
 SANITIZE = {
     "C01": " && tools/sanitize.sh miri C01",
-    "C06": " && tools/sanitize.sh memcheck C06",
+    "C06": " && tools/sanitize.sh memcheck C06 && tools/sanitize.sh miri-wrapper C06",
     "C16": " && tools/sanitize.sh memcheck C16",
-    "C17": " && tools/sanitize.sh tsan C17 && tools/sanitize.sh memcheck C17",
+    "C17": " && tools/sanitize.sh tsan C17 && tools/sanitize.sh memcheck C17 && tools/sanitize.sh miri-wrapper C17",
 }
 
 NOT_YET = "check not built yet in this round (see DESIGN.md §5c build order)"
